@@ -1189,6 +1189,126 @@ def r16_11(rep: Report) -> None:
                      methods['__init__'], file=MCF)
 
 
+class _Raises(Exception):
+    pass
+
+
+class _Opaque(Exception):
+    pass
+
+
+def _eval_at_eof(e: ast.AST, var: str):
+    """value of a test when `var` holds what read() returns at end of input (b''); raises _Raises when the
+    evaluation itself raises (ord(b''), b''[0]) and _Opaque when the expression is not understood"""
+    if isinstance(e, ast.Constant):
+        return e.value
+    if isinstance(e, ast.Name):
+        if e.id == var:
+            return b''
+        raise _Opaque(e.id)
+    if isinstance(e, ast.Tuple) or isinstance(e, ast.List) or isinstance(e, ast.Set):
+        return tuple(_eval_at_eof(x, var) for x in e.elts)
+    if isinstance(e, ast.UnaryOp) and isinstance(e.op, ast.Not):
+        return not _eval_at_eof(e.operand, var)
+    if isinstance(e, ast.BoolOp):
+        res = None
+        for v in e.values:
+            res = _eval_at_eof(v, var)
+            if isinstance(e.op, ast.And) and not res:
+                return res
+            if isinstance(e.op, ast.Or) and res:
+                return res
+        return res
+    if isinstance(e, ast.Call):
+        cn = call_name(e)
+        args = [_eval_at_eof(a, var) for a in e.args]
+        if cn == 'ord' and len(args) == 1:
+            if isinstance(args[0], (bytes, str)) and len(args[0]) == 1:
+                return ord(args[0])
+            raise _Raises('ord() of an empty value')
+        if cn == 'len' and len(args) == 1 and isinstance(args[0], (bytes, str, tuple)):
+            return len(args[0])
+        if cn in ('bool', 'bytes', 'str') and len(args) == 1:
+            return {'bool': bool, 'bytes': bytes, 'str': str}[cn](args[0])
+        raise _Opaque(cn or norm(e))
+    if isinstance(e, ast.Subscript) and not isinstance(e.slice, ast.Slice):
+        base, ix = _eval_at_eof(e.value, var), _eval_at_eof(e.slice, var)
+        try:
+            return base[ix]
+        except Exception:
+            raise _Raises('index into an empty value')
+    if isinstance(e, ast.Compare):
+        left = _eval_at_eof(e.left, var)
+        for op, c_ in zip(e.ops, e.comparators):
+            right = _eval_at_eof(c_, var)
+            try:
+                ok = {ast.Eq: lambda: left == right, ast.NotEq: lambda: left != right, ast.In: lambda: left in right,
+                      ast.NotIn: lambda: left not in right, ast.Lt: lambda: left < right, ast.Gt: lambda: left > right,
+                      ast.LtE: lambda: left <= right, ast.GtE: lambda: left >= right,
+                      ast.Is: lambda: left is right, ast.IsNot: lambda: left is not right}[type(op)]()
+            except KeyError:
+                raise _Opaque(norm(e))
+            except TypeError:
+                raise _Raises('comparison of unlike types')
+            if not ok:
+                return False
+            left = right
+        return True
+    raise _Opaque(norm(e))
+
+
+def r16_12(rep: Report) -> None:
+    """R16.12  a loop that reads until a sentinel also ends at the end of the input: with the variable holding
+    what read() returns there (an empty bytes object) the loop test is false or raises, or a guarded
+    break / return / raise in the body is taken before the next read.  Otherwise a truncated file makes the
+    parser spin forever on empty reads (decided by evaluating the test on that one value)."""
+    n = 0
+    for rel in rep.repo.py_files('dashlive'):
+        tree = rep.repo.tree(rel)
+        for fn in [x for x in ast.walk(tree) if isinstance(x, (ast.FunctionDef, ast.AsyncFunctionDef))]:
+            for loop in [x for x in ast.walk(fn) if isinstance(x, ast.While)]:
+                reads = [a for a in ast.walk(loop) if isinstance(a, ast.Assign) and isinstance(a.value, ast.Call)
+                         and isinstance(a.value.func, ast.Attribute) and a.value.func.attr in ('read', 'peek', 'recv')
+                         and len(a.targets) == 1 and isinstance(a.targets[0], ast.Name)]
+                for var in sorted({a.targets[0].id for a in reads}):
+                    exits = [i for i in ast.walk(loop) if isinstance(i, ast.If)
+                             and any(isinstance(x, ast.Name) and x.id == var for x in ast.walk(i.test))
+                             and any(isinstance(b, (ast.Break, ast.Return, ast.Raise)) for st in i.body for b in ast.walk(st))]
+                    in_test = any(isinstance(x, ast.Name) and x.id == var for x in ast.walk(loop.test))
+                    if not in_test and not exits:
+                        continue            # the loop does not depend on what was read
+                    n += 1
+                    construct = f'{rel}::{fn.name}'
+                    key = f'while {short(loop.test, 40)} ends at end of input'
+                    verdict = None
+                    if in_test:
+                        try:
+                            verdict = 'test false' if not _eval_at_eof(loop.test, var) else None
+                        except _Raises as err:
+                            verdict = f'test raises ({err})'
+                        except _Opaque:
+                            verdict = None
+                    if verdict is None:
+                        for i in exits:
+                            try:
+                                if _eval_at_eof(i.test, var):
+                                    verdict = f'`if {short(i.test, 30)}` leaves the loop'
+                                    break
+                            except _Raises as err:
+                                verdict = f'`if {short(i.test, 30)}` raises ({err})'
+                                break
+                            except _Opaque:
+                                continue
+                    if verdict is not None:
+                        rep.ok('R16.12', construct, key, verdict)
+                    else:
+                        rep.fail('R16.12', construct, key,
+                                 f'`{var}` is read inside the loop and at end of input read() returns an empty value, for which '
+                                 f'`{short(loop.test, 50)}` stays true and no guarded exit is taken: a truncated input makes the '
+                                 'loop run without bound (empty reads never advance)', loop)
+    rep.extra['read_until_loops'] = n
+
+
 def analyse(rep: Report) -> None:
     rep.explanation = (
         'Interprocedural exception-escape analysis from every routed (handler, verb) entry point '
@@ -1212,6 +1332,7 @@ def analyse(rep: Report) -> None:
     rep.rule('R16.10', 'error positions are converted with the representation of their own media type', floor=2)
     rep.rule('R16.11', 'attributes the manifest templates read unguarded exist on every path of ManifestContext.__init__', floor=10)
     rep.rule('R16.9', 'session values are stored in the type their readers compute with', floor=1)
+    rep.rule('R16.12', 'loops that read until a sentinel end at the end of the input', floor=1)
     idx = Index(rep.repo)
     cg = CallGraph(idx)
     validated_ok = r16_8(rep, idx)
@@ -1224,6 +1345,7 @@ def analyse(rep: Report) -> None:
     r16_9(rep, idx)
     r16_10(rep, idx)
     r16_11(rep)
+    r16_12(rep)
     rep.assumptions = [
         'call edges are the resolved ones (CHA, typed locals, proxies); template calls are added '
         'for the three timeline generators; unresolved dynamic calls propagate nothing',
